@@ -7,12 +7,12 @@ import (
 )
 
 type fleetGen struct {
-	r      *rand.Rand
-	lines  []string
-	ids    []string
-	native bool
-	nowIdx uint64
-	tsCtr  uint64
+	r       *rand.Rand
+	lines   []string
+	ids     []string
+	native  bool
+	nowIdx  uint64
+	tsCtr   uint64
 	started map[string]bool
 	lastTs  map[string]uint64 // native: last timestamp used per instance/key (writes are monotone per key per instance)
 	curID   string
